@@ -8,6 +8,9 @@ import (
 	"fmt"
 	"math/big"
 	"strings"
+	"sync"
+	"sync/atomic"
+	"time"
 
 	"verifmc/core"
 	"verifmc/node"
@@ -26,15 +29,18 @@ type merkleCase struct {
 	Leaves []int  `json:"leaves"` // indices into the leaf universe: leaf(i) = keccak("verif-c17-leaf/<i>")
 }
 
-var leafMemo = map[int]common.Hash{}
-
 func leaf(i int) common.Hash {
-	if h, ok := leafMemo[i]; ok {
-		return h
-	}
-	h := crypto.Keccak256Hash([]byte(fmt.Sprintf("verif-c17-leaf/%d", i)))
-	leafMemo[i] = h
-	return h
+	return crypto.Keccak256Hash([]byte(fmt.Sprintf("verif-c17-leaf/%d", i)))
+}
+
+// caseResult is what one list produced; results are merged in enumeration order so that the
+// outcome does not depend on goroutine scheduling.
+type caseResult struct {
+	c        merkleCase
+	root     common.Hash
+	counters map[string]int64
+	outcomes []string
+	viols    []core.Violation
 }
 
 var (
@@ -49,10 +55,17 @@ func alter(h common.Hash, pos int, mask byte) common.Hash {
 	return h
 }
 
-func checkMerkleCase(r *core.Result, c merkleCase) {
-	r.Add("merkle_evaluations", 1)
+func checkMerkleCase(c merkleCase) (res *caseResult) {
+	res = &caseResult{c: c, counters: map[string]int64{"merkle_evaluations": 1}}
+	r := res
 	viol := func(class, f string, a ...interface{}) {
-		r.Violate(prop+"/merkle/"+class+"/len="+fmt.Sprint(len(c.Leaves)), fmt.Sprintf("[%s list %s] ", c.Family, listName(c.Leaves))+fmt.Sprintf(f, a...), map[string]interface{}{"merkle": c})
+		fp := prop + "/merkle/" + class + "/len=" + fmt.Sprint(len(c.Leaves))
+		for _, v := range res.viols {
+			if v.Fingerprint == fp {
+				return
+			}
+		}
+		res.viols = append(res.viols, core.Violation{Fingerprint: fp, What: fmt.Sprintf("[%s list %s] ", c.Family, listName(c.Leaves)) + fmt.Sprintf(f, a...), Replay: map[string]interface{}{"merkle": c}})
 	}
 	defer func() {
 		if p := recover(); p != nil {
@@ -88,19 +101,13 @@ func checkMerkleCase(r *core.Result, c merkleCase) {
 	if n > 0 && (len(nodes) == 0 || nodes[len(nodes)-1] != root) {
 		viol("hashnodes-root-mismatch", "the last entry of HashNodes is not Root()")
 	}
-	// distinct lists, distinct roots
-	name := listName(c.Leaves)
-	if prev, ok := rootsSeen[root]; ok && prev != name {
-		viol("two-lists-one-root", "lists [%s] and [%s] have the same root %x", prev, name, root)
-	} else {
-		rootsSeen[root] = name
-	}
+	res.root = root
 	if n == 0 {
 		if _, err := merkle.FindSiblingNodes(leaf(0), nodes); err == nil {
 			viol("absent-leaf-found", "FindSiblingNodes finds a leaf in the empty tree")
 		}
 		r.Outcome("merkle:len=0")
-		return
+		return res
 	}
 	if _, err := merkle.FindSiblingNodes(leaf(1000), nodes); err == nil {
 		viol("absent-leaf-found", "FindSiblingNodes returns a path for a hash that is not in the tree")
@@ -179,6 +186,31 @@ func checkMerkleCase(r *core.Result, c merkleCase) {
 			}
 		}
 	}
+	return res
+}
+
+func (r *caseResult) Add(k string, n int64) { r.counters[k] += n }
+func (r *caseResult) Outcome(k string)      { r.outcomes = append(r.outcomes, k) }
+
+// mergeCase folds one list's result into the Result and applies the cross-list oracle: distinct
+// lists have distinct roots.
+func mergeCase(r *core.Result, res *caseResult) {
+	for k, v := range res.counters {
+		r.Add(k, v)
+	}
+	for _, o := range res.outcomes {
+		r.Outcome(o)
+	}
+	for _, v := range res.viols {
+		r.Violate(v.Fingerprint, v.What, v.Replay)
+	}
+	name := listName(res.c.Leaves)
+	if prev, ok := rootsSeen[res.root]; ok && prev != name {
+		r.Violate(prop+"/merkle/two-lists-one-root/len="+fmt.Sprint(len(res.c.Leaves)), fmt.Sprintf("[%s] lists [%s] and [%s] have the same root %x", res.c.Family, prev, name, res.root),
+			map[string]interface{}{"merkle": res.c, "merkle_other": prev})
+	} else {
+		rootsSeen[res.root] = name
+	}
 }
 
 // enumerate calls f for every list of length exactly n over the alphabet 0..k-1.
@@ -226,25 +258,49 @@ func partB(r *core.Result) {
 	if core.Thorough() {
 		maxDistinct, maxLen3, k4len, arrK = 40, 9, 6, 6
 	}
+	t0 := time.Now()
+	var cases []merkleCase
 	// (1) lists of n distinct leaves, n = 0..maxDistinct
 	for n := 0; n <= maxDistinct; n++ {
 		l := make([]int, n)
 		for i := range l {
 			l[i] = i
 		}
-		checkMerkleCase(r, merkleCase{"distinct", l})
+		cases = append(cases, merkleCase{"distinct", l})
 	}
 	// (2) all lists of length <= maxLen3 over a 3-leaf alphabet (repeated leaves)
 	for n := 0; n <= maxLen3; n++ {
-		enumerate(n, 3, func(l []int) { checkMerkleCase(r, merkleCase{"alphabet3", l}) })
+		enumerate(n, 3, func(l []int) { cases = append(cases, merkleCase{"alphabet3", l}) })
 	}
 	for n := 0; n <= k4len; n++ {
-		enumerate(n, 4, func(l []int) { checkMerkleCase(r, merkleCase{"alphabet4", l}) })
+		enumerate(n, 4, func(l []int) { cases = append(cases, merkleCase{"alphabet4", l}) })
 	}
 	// (3) every ordered selection of up to arrK out of arrK distinct leaves (order matters)
 	for n := 0; n <= arrK; n++ {
-		arrangements(n, arrK, func(l []int) { checkMerkleCase(r, merkleCase{"arrangement", l}) })
+		arrangements(n, arrK, func(l []int) { cases = append(cases, merkleCase{"arrangement", l}) })
 	}
+	// common/merkle has no package state: lists are checked by goroutines, merged in order
+	results := make([]*caseResult, len(cases))
+	var wg sync.WaitGroup
+	var next int64 = -1
+	for w := 0; w < core.Opt.Workers; w++ {
+		wg.Add(1)
+		go func() {
+			defer wg.Done()
+			for {
+				i := int(atomic.AddInt64(&next, 1))
+				if i >= len(cases) {
+					return
+				}
+				results[i] = checkMerkleCase(cases[i])
+			}
+		}()
+	}
+	wg.Wait()
+	for _, res := range results {
+		mergeCase(r, res)
+	}
+	r.Extra["part_b_wall_s"] = time.Since(t0).Seconds()
 	r.Extra["merkle_bounds"] = map[string]int{"distinct_leaves_max_len": maxDistinct, "alphabet3_max_len": maxLen3, "alphabet4_max_len": k4len, "arrangements_of": arrK}
 	r.Add("merkle_distinct_roots", int64(len(rootsSeen)))
 	partBTypes(r)
